@@ -156,6 +156,9 @@ class PerDocumentWriter(object):
     def finish_doc(self):
         pass
 
+    def cancel_doc(self):
+        pass
+
     def close(self):
         pass
 
